@@ -16,7 +16,9 @@ def V(k, a=0, s=()):
     return {"k": k, "a": int(a), "s": [int(x) for x in s]}
 
 
-USER = ("to", "ev", "proc", "cond")
+USER = ("to", "ev", "proc", "cond", "req", "rel", "put", "get")
+RESKIND = [None, "res", "prio", "preempt", "cont", "store", "pstore", "fstore"]
+INF = 1000000
 
 
 class Machine:
@@ -34,6 +36,11 @@ class Machine:
         self.creator = (0, 0)     # (pid, op index) of the call being executed
         self.names = [None]       # uid -> [creator pid, op index, ordinal] for user-visible events
         self.res = resources
+        self.resources = [None]   # resource id -> object
+        self.rkinds = [None]
+        self.pid_of = {}          # id(Process) -> pid
+        self.defer = None         # Interruption events created inside a resource call: registered after the request itself
+        self.explicit_intr = False
 
     # ------------------------------------------------------------ encoding
     def enc(self, v):
@@ -45,6 +52,10 @@ class Machine:
             return V(v[0], v[1] if len(v) > 1 else 0, v[2] if len(v) > 2 else ())
         if isinstance(v, ConditionValue):
             return V("cv", 0, [self.uid_of.get(id(e), -1) for e in v.events])
+        if isinstance(v, bool):
+            return V("bool", int(v))
+        if isinstance(v, int):
+            return V("item", v)
         if isinstance(v, Interrupt):
             c = v.cause
             if isinstance(c, tuple) and c and c[0] == "i":
@@ -57,10 +68,21 @@ class Machine:
         return V("other:" + type(v).__name__)
 
     def enc_cause(self, c):
+        if type(c).__name__ == "Preempted":
+            by = self.pid_of.get(id(c.by), 0) if c.by is not None else 0
+            rid = next((i for i in range(1, len(self.resources)) if self.resources[i] is c.resource), -1)
+            return V("preempted", by, [netlib.ex(c.usage_since) if c.usage_since is not None else -1, rid])
         return V("cause:" + type(c).__name__)
 
     def L(self, k, p, ok, v):
         self.log.append({"k": k, "p": p, "t": netlib.ex(self.env.now), "ok": bool(ok), "v": v})
+
+    def on_interruption(self):
+        """Called (through the patched Interruption.__init__) whenever the kernel has created an Interruption event."""
+        if self.defer is not None:
+            self.defer.append(1)
+        else:
+            self.reg(None, "intr")
 
     # ------------------------------------------------------------ registry
     def reg(self, obj, kind, probe=True):
@@ -110,7 +132,33 @@ class Machine:
             return all(self.exists(x) and self.kinds[x] in USER for x in s) and len(set(s)) == len(s)
         if k == "runev":
             return self.exists(o["a"]) and self.kinds[o["a"]] in USER
+        if k in ("request", "put", "get"):
+            return 1 <= o["a"] < len(self.resources)
+        if k in ("release", "withexit"):
+            return self.exists(o["a"]) and self.kinds[o["a"]] == "req" and (k == "release" or self.queued_or_done(o["a"]))
+        if k == "cancel":
+            return self.exists(o["a"]) and self.kinds[o["a"]] in ("req", "put", "get") and self.queued_or_done(o["a"])
         return True
+
+    def queued_or_done(self, uid):
+        ev = self.events[uid]
+        if ev.triggered:
+            return True
+        r = ev.resource
+        return any(x is ev for x in r.put_queue) or any(x is ev for x in r.get_queue)
+
+    def res_state(self):
+        out = []
+        for i in range(1, len(self.resources)):
+            r, kind = self.resources[i], self.rkinds[i]
+            users = getattr(r, "users", [])
+            items = list(getattr(r, "items", []))
+            if kind == "pstore":
+                items = sorted(items)
+            out += [len(users)] + [self.uid_of.get(id(u), -1) for u in users]
+            out += [len(r.put_queue)] + [self.uid_of.get(id(u), -1) for u in r.put_queue]
+            out += [netlib.ex(getattr(r, "level", 0)), len(items)] + [int(x) for x in items] + [len(r.get_queue)]
+        return out
 
     # ------------------------------------------------------------ ops shared by processes and the top level
     def simple(self, o, P, n):
@@ -151,13 +199,13 @@ class Machine:
             self.procs.append(None)
             pr = env.process(self.body(pid))
             self.procs[pid] = pr
+            self.pid_of[id(pr)] = pid
             self.reg(pr, "proc")
             self.reg(None, "init")
             return None
         if k == "interrupt":
             try:
-                self.procs[o["a"]].interrupt(("i", P, n))
-                self.reg(None, "intr")
+                self.procs[o["a"]].interrupt(("i", P, n))      # the Interruption registers itself (on_interruption)
             except RuntimeError:
                 self.L("E", P, False, V("RuntimeError"))
             return None
@@ -176,6 +224,69 @@ class Machine:
             return None
         if k == "skip":
             self.L("E", P, False, V("Skip"))
+            return None
+        if k == "mkres":
+            from onl.sim import (Resource, PriorityResource, PreemptiveResource, Container, Store, PriorityStore, FilterStore)
+            kind = RESKIND[o["s"][0]]
+            cap = float("inf") if o["a"] >= INF else o["a"]
+            if kind == "res":
+                r = Resource(env, cap)
+            elif kind == "prio":
+                r = PriorityResource(env, cap)
+            elif kind == "preempt":
+                r = PreemptiveResource(env, cap)
+            elif kind == "cont":
+                r = Container(env, cap, o["b"])
+            elif kind == "store":
+                r = Store(env, cap)
+            elif kind == "pstore":
+                r = PriorityStore(env, cap)
+            else:
+                r = FilterStore(env, cap)
+            self.resources.append(r)
+            self.rkinds.append(kind)
+            return None
+        if k == "request":
+            r, kind = self.resources[o["a"]], self.rkinds[o["a"]]
+            self.defer = []
+            try:
+                req = r.request() if kind == "res" else r.request(priority=o["b"], preempt=bool(o["c"]))
+            finally:
+                n_intr, self.defer = len(self.defer), None
+            self.reg(req, "req")
+            for _ in range(n_intr):
+                self.reg(None, "intr")          # an eviction created an Interruption event after the request event
+            return None
+        if k == "release":
+            req = self.events[o["a"]]
+            self.reg(req.resource.release(req), "rel")
+            return None
+        if k == "cancel":
+            self.events[o["a"]].cancel()        # (an eviction by the re-scan registers its Interruption itself)
+            return None
+        if k == "withexit":
+            self.events[o["a"]].__exit__(None, None, None)
+            self.reg(None, "relx")              # the Release event created inside __exit__ (not visible to the caller)
+            return None
+        if k == "put":
+            r, kind = self.resources[o["a"]], self.rkinds[o["a"]]
+            try:
+                self.reg(r.put(o["b"]), "put")
+            except ValueError:
+                self.L("E", P, False, V("ValueError"))
+            return None
+        if k == "get":
+            r, kind = self.resources[o["a"]], self.rkinds[o["a"]]
+            try:
+                if kind == "cont":
+                    g = r.get(o["b"])
+                elif kind == "fstore":
+                    g = r.get(lambda x, f=o["b"]: f == 0 or x == f)
+                else:
+                    g = r.get()
+                self.reg(g, "get")
+            except ValueError:
+                self.L("E", P, False, V("ValueError"))
             return None
         if self.res is not None:
             return self.res.op(self, o, P, n)
@@ -249,6 +360,15 @@ class Machine:
                     self.L("RET", 0, True, self.enc(r))
                 except BaseException as e:  # noqa
                     self.L("X", 0, False, self.enc(e))
+            elif k == "steps":
+                try:
+                    while env.peek() != float("inf"):
+                        env.step()
+                        pk = env.peek()
+                        self.L("T", 0, True, V("peek", -1 if pk == float("inf") else netlib.ex(pk), self.res_state()))
+                    self.L("RET", 0, True, V("none"))
+                except BaseException as e:  # noqa
+                    self.L("X", 0, False, self.enc(e))
             elif k == "step":
                 try:
                     env.step()
@@ -260,8 +380,30 @@ class Machine:
                 self.simple(o, 0, n)
 
 
+CURRENT = [None]
+
+
+def install_interruption_hook():
+    """Interruption events are internal to the kernel; to mirror the specification's event numbering the interpreter has
+    to know when one has been created (explicit interrupt() calls and preemptions alike).  Patched at run time, in the
+    driver process only."""
+    import onl.sim.events as ev
+    if getattr(ev.Interruption, "_verif_hook", False):
+        return
+    orig = ev.Interruption.__init__
+
+    def init(self, process, cause):
+        orig(self, process, cause)
+        if CURRENT[0] is not None:
+            CURRENT[0].on_interruption()
+    ev.Interruption.__init__ = init
+    ev.Interruption._verif_hook = True
+
+
 def patch_until_registration(machine):
     """run(until=number) creates one internal event: mirror the spec's id allocation."""
+    install_interruption_hook()
+    CURRENT[0] = machine
     env = machine.env
     orig = env.run
 
@@ -302,9 +444,38 @@ class Chooser:
         m = self.m
         return [u for u in range(1, len(m.events)) if m.kinds[u] in kinds]
 
+    # ---- resource discipline (C06 quantifier: at most one request per process and resource at a time)
+    def mine(self, P, kinds):
+        m = self.m
+        return [u for u in range(1, len(m.events)) if m.kinds[u] in kinds and m.events[u] is not None
+                and getattr(m.events[u], "proc", None) is (m.procs[P] if P else None)]
+
+    def outstanding(self, P, r):
+        m = self.m
+        res = m.resources[r]
+        for u in self.mine(P, ("req",)):
+            ev = m.events[u]
+            if ev.resource is res and (any(x is ev for x in res.put_queue) or any(x is ev for x in res.users)):
+                return u
+        return 0
+
+    def holds_any(self, P):
+        m = self.m
+        for r in range(1, len(m.resources)):
+            if m.rkinds[r] in ("res", "prio", "preempt"):
+                u = self.outstanding(P, r)
+                if u:
+                    return u
+        return 0
+
     def pick(self, P, count, table, is_top):
         g, m, rng = self.g, self.m, self.rng
         room = len(m.events) - 1 < g["max_events"]
+        Z = {"b": 0, "c": 0, "s": []}
+        if not is_top and g.get("resources"):
+            held = self.holds_any(P)
+            if held and count >= g["max_ops"] - 1:
+                return dict(Z, k="withexit", a=held)            # leave the with-block before ending
         for _ in range(50):
             kinds = [k for k in table]
             k = rng.choices(kinds, [table[x] for x in kinds])[0]
@@ -332,9 +503,37 @@ class Chooser:
                     return {"k": k, "a": rng.choice(u), "b": 0, "c": c, "s": []}
             if k in ("baddelay", "condforeign"):
                 return {"k": k, "a": 0, "b": 0, "c": 0, "s": []}
+            if k == "request" and room and count <= g["max_ops"] - 2:
+                rs = [r for r in range(1, len(m.resources)) if m.rkinds[r] in ("res", "prio", "preempt") and not self.outstanding(P, r)]
+                if rs:
+                    return {"k": k, "a": rng.choice(rs), "b": rng.choice(g.get("prios", [0, 1, 2])), "c": rng.choice([0, 1]), "s": []}
+            if k == "release" and room:
+                u = self.mine(P, ("req",))
+                if u:
+                    return dict(Z, k=k, a=rng.choice(u))
+            if k in ("cancel", "withexit") and room:
+                u = [x for x in self.mine(P, ("req",) if k == "withexit" else ("req", "put", "get")) if m.queued_or_done(x)]
+                if u:
+                    return dict(Z, k=k, a=rng.choice(u))
+            if k in ("put", "get") and room:
+                rs = [r for r in range(1, len(m.resources)) if m.rkinds[r] not in ("res", "prio", "preempt")]
+                if rs:
+                    r = rng.choice(rs)
+                    if m.rkinds[r] == "cont":
+                        return dict(Z, k=k, a=r, b=rng.choice(g.get("amounts", [1, 1, 2, 3])))
+                    if k == "put":
+                        return dict(Z, k=k, a=r, b=100 * rng.choice([0, 1, 2]) + len(m.events))
+                    f = 0
+                    if m.rkinds[r] == "fstore" and m.resources[r].items and rng.random() < 0.6:
+                        f = rng.choice(list(m.resources[r].items))
+                    return dict(Z, k=k, a=r, b=int(f))
+            if k == "ryield" and not is_top:
+                u = self.mine(P, ("req", "put", "get", "rel"))
+                if u:
+                    return dict(Z, k="yield", a=rng.choice(u), c=1)
             if k == "raise" and not is_top:
                 return {"k": k, "a": 0, "b": 0, "c": 0, "s": []}
-            if k == "return" and not is_top:
+            if k == "return" and not is_top and not (g.get("resources") and self.holds_any(P)):
                 return {"k": k, "a": 0, "b": 0, "c": 0, "s": []}
             if is_top and k in ("run", "step"):
                 return {"k": k, "a": 0, "b": 0, "c": 0, "s": []}
@@ -344,6 +543,8 @@ class Chooser:
                 u = self.users()
                 if u:
                     return {"k": k, "a": rng.choice(u), "b": 0, "c": 0, "s": []}
+        if not is_top and g.get("resources") and self.holds_any(P):
+            return dict(Z, k="withexit", a=self.holds_any(P))
         return {"k": "return", "a": 0, "b": 0, "c": 0, "s": []} if not is_top else {"k": "run", "a": 0, "b": 0, "c": 0, "s": []}
 
 
@@ -380,8 +581,14 @@ def run_generated(g):
     m = Machine(scripts)
     patch_until_registration(m)
     ch = Chooser(m, g)
-    plan = GenScript(ch, 0, g["max_plan"], g["plan_kinds"], is_top=True)
-    list.append(plan, {"k": "spawn", "a": 0, "b": 0, "c": 0, "s": []})
+    if g.get("resources"):
+        # resource histories: the top level creates the resources and all processes, then runs step by step
+        plan = [{"k": "mkres", "a": c, "b": i, "c": 0, "s": [kc]} for kc, c, i in g["resources"]]
+        plan += [{"k": "spawn", "a": 0, "b": 0, "c": 0, "s": []} for _ in range(g["nproc"])]
+        plan += [{"k": "steps", "a": 0, "b": 0, "c": 0, "s": []}]
+    else:
+        plan = GenScript(ch, 0, g["max_plan"], g["plan_kinds"], is_top=True)
+        list.append(plan, {"k": "spawn", "a": 0, "b": 0, "c": 0, "s": []})
     scripts.append(plan)
     for pid in range(1, g["max_procs"] + 1):
         scripts.append(GenScript(ch, pid, g["max_ops"], g["kinds"]))
